@@ -669,6 +669,10 @@ class Interp:
 
     def e_Subscript(self, node, fr):
         obj = self.eval(node.value, fr)
+        from .builtins_model import TypeTag
+
+        if isinstance(obj, TypeTag):
+            return Opaque(f"type alias {obj.name}[...]")  # e.g. ResultType = tuple[NumericArray, int, tuple]
         key = self.eval_index(node.slice, fr)
         return self.getitem(obj, key)
 
